@@ -87,7 +87,7 @@ Proof. exact (cg_residual_truthful Srt Seqb n A P A_len P_len A_lin prm f x0 jun
 
 (* BiCGStab, both sides, both exits (after the first or the second half step), with or without
    check_after, also when no iteration is made; the preconditioned residual for side = left.
-   (Before fix 5724e11 check_after returned the placeholder 2*eps when the loop body was not
+   (Before fix 60a0b5c check_after returned the placeholder 2*eps when the loop body was not
    entered: known_findings.d/C01-bicgstab-check-after-placeholder.json, status fixed.) *)
 Hypothesis P_lin : linear_on n P.
 Theorem C01_bicgstab_residual_truthful prm f x0 junk nr r w :
